@@ -13,7 +13,8 @@ import RvModel.Hand.DispatchC20
 import RvModel.Hand.DispatchC15
 import RvModel.Hand.DispatchC17
 import RvModel.Hand.DispatchC04
+import RvModel.Hand.DispatchC05S
 /- all hand-written driver entries (integrator-maintained) -/
 namespace HandDispatch
-def table : List (String × Rd String) := tableC01A ++ tableC13 ++ tableC01B ++ tableC01C ++ tableC03 ++ tableC08 ++ tableC12 ++ HandDispatchC14.tableC14 ++ tableC13B ++ tableC19 ++ HandDispatchC11.tableC11 ++ HandDispatchC16.tableC16 ++ tableC20 ++ HandDispatchC15.tableC15 ++ HandDispatchC17.tableC17 ++ tableC04
+def table : List (String × Rd String) := tableC01A ++ tableC13 ++ tableC01B ++ tableC01C ++ tableC03 ++ tableC08 ++ tableC12 ++ HandDispatchC14.tableC14 ++ tableC13B ++ tableC19 ++ HandDispatchC11.tableC11 ++ HandDispatchC16.tableC16 ++ tableC20 ++ HandDispatchC15.tableC15 ++ HandDispatchC17.tableC17 ++ tableC04 ++ HandDispatchC05S.tableC05S
 end HandDispatch
